@@ -164,13 +164,21 @@ def _discharge_one(idx):
     return idx, str(r), time.time() - t0, model, reason
 
 
-def discharge(obls: List[Obligation], timeout_ms=30000, procs=None):
+def discharge(obls: List[Obligation], timeout_ms=30000, procs=None, stop_at_sat=False):
     """Returns a list of (obligation, verdict, seconds, model, reason) in input order."""
     global _OBLS, _TIMEOUT_MS
     _OBLS = obls
     _TIMEOUT_MS = timeout_ms
     if not obls:
         return []
+    if stop_at_sat:
+        out = []
+        for i in range(len(obls)):
+            r = _discharge_one(i)
+            out.append(r)
+            if r[1] == "sat":
+                break
+        return [(obls[i], v, t, m, why) for i, v, t, m, why in out]
     procs = procs or min(16, os.cpu_count() or 4, max(1, len(obls)))
     if procs <= 1 or len(obls) < 4:
         out = [_discharge_one(i) for i in range(len(obls))]
